@@ -10,6 +10,7 @@
   corresponding guard / bound / table entry changes in the source.
 -/
 import PsutilModel.Proofs.C17Users
+import PsutilModel.Proofs.C17Parts
 import PsutilModel.Model.C17Gen
 namespace Psutil.C17
 open Spec
@@ -108,5 +109,421 @@ set_option maxRecDepth 100000 in
 theorem C17_users_read_in_record_unbounded_counterexample :
     ¬ (∀ s ∈ usersReads ucfgUnbounded (renderAll [fullWidth]) [83, 0], s ≤ 384) := by
   decide
+
+
+/-! ## disk_partitions() -/
+
+theorem pcfg_good : pcfg.Good := by
+  refine ⟨?_, ?_, ?_, ?_, ?_, ?_, ?_⟩ <;> decide
+
+/-- **C17_filesystems_parse** — the `fstypes` set built from /proc/filesystems (every list of
+    registered types, `nodev` or not) is exactly the disk-backed types: the non-`nodev` lines
+    plus zfs. -/
+theorem C17_filesystems_parse (c : PCfg) (hg : c.Good) (fs : List FsEntry) (h : ∀ e ∈ fs, e.WF) :
+    fsLines c [] (fs.map renderFsLine) = some (diskFs fs) := by
+  simpa using fsLines_good c hg fs h []
+
+/-- **C17_partitions_filter** — for every list of mount entries, `disk_partitions(all)` returns
+    each entry's device (`none` → '', `/dev/root`/`rootfs` resolved), mount point, type and
+    options, in order; with `all=False` exactly those with a device and a disk-backed type, with
+    `all=True` every entry. -/
+theorem C17_partitions_filter (c : PCfg) (hg : c.Good) (all : Bool) (ft disk : List Bytes)
+    (hft : ∀ x, x ∈ ft ↔ x ∈ disk) (root : Option Bytes) (ms : List Mnt) :
+    C17.partitions c all ft root ms = Spec.partitions all disk root ms := by
+  unfold C17.partitions Spec.partitions
+  have hv : ms.map (viewMnt c root) = ms.map (shown root) := by
+    apply List.map_congr_left
+    intro m _
+    simp [viewMnt, shown, viewDev_good c hg]
+  rw [hv]
+  cases all with
+  | true =>
+    simp only [if_true, Bool.true_or]
+    exact (List.filter_eq_self.2 (fun _ _ => rfl)).symm
+  | false =>
+    simp only [Bool.false_eq_true, if_false, Bool.false_or]
+    apply List.filter_congr
+    intro m _
+    exact keepMnt_good c hg ft disk hft m
+
+theorem C17_partitions_filter_current (all : Bool) (fs : List FsEntry) (root : Option Bytes) (ms : List Mnt) :
+    C17.partitions pcfg all (diskFs fs) root ms = Spec.partitions all (diskFs fs) root ms :=
+  C17_partitions_filter pcfg pcfg_good all _ _ (fun _ => Iff.rfl) root ms
+
+/-- membership form of the promise: with `all=False` a row is returned iff it is the view of a
+    mount entry that has a device and a disk-backed type; with `all=True` every entry is there -/
+theorem C17_partitions_kept_iff (disk : List Bytes) (root : Option Bytes) (ms : List Mnt) (row : Mnt) :
+    row ∈ Spec.partitions false disk root ms ↔ (∃ e ∈ ms, row = shown root e) ∧ row.dev ≠ [] ∧ row.typ ∈ disk := by
+  simp only [Spec.partitions, Bool.false_or, List.mem_filter, List.mem_map, decide_eq_true_eq]
+  unfold Kept
+  constructor
+  · rintro ⟨⟨e, he, rfl⟩, hk⟩; exact ⟨⟨e, he, rfl⟩, hk⟩
+  · rintro ⟨⟨e, he, rfl⟩, hk⟩; exact ⟨⟨e, he, rfl⟩, hk⟩
+
+theorem C17_partitions_all (disk : List Bytes) (root : Option Bytes) (ms : List Mnt) :
+    Spec.partitions true disk root ms = ms.map (shown root) := by
+  simp [Spec.partitions]
+
+example : (∀ e ∈ [FsEntry.mk true [115, 121, 115, 102, 115], ⟨false, [101, 120, 116, 52]⟩, ⟨true, zfs⟩], e.WF) := by
+  intro e he
+  simp only [List.mem_cons, List.not_mem_nil, or_false] at he
+  rcases he with rfl | rfl | rfl <;> exact ⟨by decide, by decide, by decide⟩
+
+/-- the code as it is: a *disk-backed* type whose name begins with "nodev" makes
+    `line.split("\t")[1]` raise IndexError (no such type exists; stated, not claimed away) -/
+theorem C17_filesystems_nodev_named_type_IndexError :
+    fsLines pcfg [] [renderFsLine ⟨false, [110, 111, 100, 101, 118, 102, 115]⟩] = none := by decide
+
+/-! ## PSUTIL_STRNCPY -/
+
+theorem scfg_good : scfg.Good := by
+  refine ⟨?_, ?_, ?_, ?_⟩ <;> decide
+
+/-- **C17_strncpy_terminated** — for every source string and every array size `n > 0`: no store
+    at an index ≥ n, `dst[n-1] = 0`, and `dst` holds the source cut to `n-1` bytes. -/
+theorem C17_strncpy_terminated (c : SCfg) (hg : c.Good) (src dst : Bytes) (n : Nat) (hn : 0 < n)
+    (hd : dst.length = n) :
+    (∀ w ∈ strncpyWrites c src n, w.1 < n)
+    ∧ (applyWrites dst (strncpyWrites c src n))[n - 1]? = some 0
+    ∧ cut (applyWrites dst (strncpyWrites c src n)) = boundedCopy src n := by
+  have hlen := strncpyBytes_length src (n - 1)
+  have hrun := applyWrites_run (strncpyBytes src (n - 1)) dst 0 (by rw [hlen]; omega)
+  have hw : strncpyWrites c src n =
+      ((strncpyBytes src (n - 1)).zipIdx 0).map (fun p => (p.2, p.1)) ++ [(n - 1, 0)] := by
+    simp [strncpyWrites, hg.copy, hg.term, hg.has]
+  have hres : applyWrites dst (strncpyWrites c src n) = strncpyBytes src (n - 1) ++ [0] := by
+    rw [hw, applyWrites_append, hrun]
+    simp only [List.take_zero, List.nil_append, Nat.zero_add, hlen]
+    obtain ⟨z, hz⟩ : ∃ z, dst.drop (n - 1) = [z] := by
+      have : (dst.drop (n - 1)).length = 1 := by simp; omega
+      match hdd : dst.drop (n - 1), this with
+      | [z], _ => exact ⟨z, rfl⟩
+    rw [hz]
+    simp only [applyWrites, List.foldl_cons, List.foldl_nil]
+    rw [List.set_eq_take_append_cons_drop]
+    have : n - 1 < (strncpyBytes src (n - 1) ++ [z]).length := by simp [hlen]
+    rw [if_pos this, List.take_left' hlen]
+    have : List.drop (n - 1 + 1) (strncpyBytes src (n - 1) ++ [z]) = [] := by
+      apply List.drop_eq_nil_of_le; simp [hlen]
+    rw [this]
+  refine ⟨?_, ?_, ?_⟩
+  · intro w hwm
+    rw [hw] at hwm
+    simp only [List.mem_append, List.mem_map, List.mem_cons, List.not_mem_nil, or_false] at hwm
+    rcases hwm with ⟨⟨b, i⟩, hm, rfl⟩ | rfl
+    · have := List.mem_zipIdx hm
+      simp only at this ⊢
+      omega
+    · simp only; omega
+  · rw [hres, List.getElem?_append_right (by rw [hlen]; exact Nat.le_refl _), hlen]
+    simp
+  · rw [hres]
+    unfold boundedCopy strncpyBytes
+    have hs : ∀ x ∈ (List.takeWhile (fun c => c != 0) src).take (n - 1), x ≠ 0 :=
+      fun x hx => cut_nonzero src x (List.mem_of_mem_take hx)
+    unfold cut at *
+    rw [List.append_assoc]
+    apply takeWhile_append_zero _ _ hs
+    intro _
+    cases hrep : List.replicate (n - 1 - ((List.takeWhile (fun c => c != 0) src).take (n - 1)).length) 0 with
+    | nil => rfl
+    | cons a t =>
+      have : a ∈ List.replicate (n - 1 - ((List.takeWhile (fun c => c != 0) src).take (n - 1)).length) 0 := by
+        rw [hrep]; simp
+      have := (List.mem_replicate.1 this).2
+      simp [this]
+
+theorem C17_strncpy_terminated_current (src dst : Bytes) (n : Nat) (hn : 0 < n) (hd : dst.length = n) :
+    (∀ w ∈ strncpyWrites scfg src n, w.1 < n)
+    ∧ (applyWrites dst (strncpyWrites scfg src n))[n - 1]? = some 0
+    ∧ cut (applyWrites dst (strncpyWrites scfg src n)) = boundedCopy src n :=
+  C17_strncpy_terminated scfg scfg_good src dst n hn hd
+
+/-- a macro that stores the terminator at `dst[n]` writes one past the array -/
+theorem C17_strncpy_off_by_one_counterexample :
+    ¬ (∀ w ∈ strncpyWrites { scfg with termMinus := 0 } [97, 98] 16, w.1 < 16) := by decide
+
+/-! ## MAC address formatting -/
+
+theorem mcfg_good : mcfg.Good := by
+  refine ⟨?_, ?_, ?_, ?_, ?_⟩ <;> decide
+
+/-- **C17_mac_fits** — for every hardware address of length ≤ 255 (`sll_halen` is an `unsigned
+    char`), every store of the formatting loop and the final `*--ptr = 0` lie inside
+    `char buf[NI_MAXHOST]`; for a non-empty address the final `--ptr` does not go below `buf`. -/
+theorem C17_mac_fits (c : MCfg) (hg : c.Good) (data : Bytes) (hlen : data.length ≤ 255) :
+    (∀ w ∈ macWrites c data, w.1 < c.bufSize) ∧ (data ≠ [] → 1 ≤ c.step * data.length) := by
+  constructor
+  · intro w hw
+    rw [hg.buf]
+    simp only [macWrites, List.mem_append, List.mem_flatMap, List.mem_map, List.mem_cons,
+      List.not_mem_nil, or_false, hg.step] at hw
+    rcases hw with ⟨⟨b, i⟩, hbi, ⟨ch, j⟩, hj, rfl⟩ | rfl
+    · have h1 := List.mem_zipIdx hbi
+      have h2 := List.mem_zipIdx hj
+      have hp : (macPiece c b ++ [0]).length = 4 := by
+        simp [macPiece, hg.masked, hex2]
+      simp only at h1 h2 ⊢
+      omega
+    · simp only; omega
+  · intro hne
+    rw [hg.step]
+    have : 0 < data.length := List.length_pos_iff.mpr hne
+    omega
+
+theorem C17_mac_fits_current (data : Bytes) (hlen : data.length ≤ 255) :
+    (∀ w ∈ macWrites mcfg data, w.1 < mcfg.bufSize) ∧ (data ≠ [] → 1 ≤ mcfg.step * data.length) :=
+  C17_mac_fits mcfg mcfg_good data hlen
+
+/-- the formatted text of a concrete address equals the kernel's `aa:bb:…` rendering (the
+    general equality is checked by the correspondence on every generated address) -/
+example : macFormat mcfg [0, 255, 16, 171, 205, 239] = some (macText [0, 255, 16, 171, 205, 239]) := by decide
+
+/-! ## cpu_affinity_get: the doubling loop -/
+
+theorem acfg_good : acfg.Good := by
+  refine ⟨?_, ?_, ?_⟩ <;> decide
+
+/-- **C17_affinity_no_overflow** — whatever the kernel answers (accepting at any size, or
+    never), the loop never evaluates `ncpus * 2` when that is not representable in `int`, and it
+    terminates (with the list size or OverflowError). -/
+theorem C17_affinity_no_overflow (c : ACfg) (hg : c.Good) (need : Option Nat) :
+    (∀ m, affGet c need ≠ .ub m) ∧ affGet c need ≠ .fuelOut := by
+  have hnone : affGet c none = .overflowError := by
+    obtain ⟨i, g, f⟩ := c
+    obtain ⟨hi, hgd, hf⟩ := hg
+    simp only at hi hgd hf
+    subst hi hgd hf
+    decide
+  unfold affGet at *
+  rcases affLoop_sim c need 64 c.initBits with ⟨k, hk⟩ | he
+  · rw [hk]; exact ⟨fun m h => (by cases h), fun h => (by cases h)⟩
+  · rw [he, hnone]; exact ⟨fun m h => (by cases h), fun h => (by cases h)⟩
+
+theorem C17_affinity_no_overflow_current (need : Option Nat) :
+    (∀ m, affGet acfg need ≠ .ub m) ∧ affGet acfg need ≠ .fuelOut :=
+  C17_affinity_no_overflow acfg acfg_good need
+
+/-- without the `ncpus > INT_MAX / 2` guard a kernel that keeps answering EINVAL drives the loop
+    into signed overflow -/
+theorem C17_affinity_unguarded_counterexample :
+    affGet { acfg with guard := none } none = .ub 1073741824 := by decide
+
+/-! ## CPU_SET on an arbitrary C `long` -/
+
+theorem ccfg_good : ccfg.Good := by
+  refine ⟨?_, ?_⟩ <;> decide
+
+/-- **C17_cpuset_in_bounds** — for every value of a C `long` (negative, huge, anything),
+    `CPU_SET(v, &cpu_set)` touches an 8-byte word inside the 128-byte set, or nothing. -/
+theorem C17_cpuset_in_bounds (c : CCfg) (hg : c.Good) (v : Int) :
+    match cpuSetWord c v with
+    | some w => 8 * w + 8 ≤ c.setBytes
+    | none => True := by
+  cases h : cpuSetWord c v with
+  | none => trivial
+  | some w => exact cpuSetWord_good c hg v w h
+
+/-- … hence `cpu_affinity_set` never stores outside the set, for every sequence of items -/
+theorem C17_affinity_set_in_bounds (c : CCfg) (hg : c.Good) (items : List Item) :
+    ∀ w, affSet c items ≠ .oob w := by
+  unfold affSet
+  generalize ([] : List Nat) = acc
+  induction items generalizing acc with
+  | nil => intro w h; simp [affSetGo] at h
+  | cons it rest ih =>
+    intro w
+    cases it with
+    | other => simp [affSetGo]
+    | int v =>
+      simp only [affSetGo]
+      split
+      · simp
+      · split
+        · simp
+        · split
+          · exact ih _ w
+          · rename_i w' hw'
+            have := cpuSetWord_good c hg v w' hw'
+            rw [if_pos this]
+            exact ih _ w
+
+theorem C17_cpuset_in_bounds_current (items : List Item) : ∀ w, affSet ccfg items ≠ .oob w :=
+  C17_affinity_set_in_bounds ccfg ccfg_good items
+
+/-- an unchecked `bits[v / 64] |= …` would store outside the set for CPU number 1024 -/
+theorem C17_cpuset_unchecked_counterexample :
+    affSet { ccfg with checkedMacro := false } [.int 1024] = .oob 16 := by decide
+
+/-! ## check_pid_range -/
+
+theorem rcfg_good : rcfg.Good := by
+  refine ⟨?_, ?_⟩ <;> decide
+
+/-- **C17_pid_range** — for every Python int: accepted (None) iff it is a non-negative `pid_t`;
+    negative → ValueError; not representable → OverflowError; never anything else. -/
+theorem C17_pid_range (c : RCfg) (hg : c.Good) (v : Int) :
+    (checkPidRange c (.int v) = .none ↔ PidOk v)
+    ∧ (-2147483648 ≤ v ∧ v < 0 → checkPidRange c (.int v) = .valueError)
+    ∧ (v < -2147483648 ∨ 2147483647 < v → checkPidRange c (.int v) = .overflowError)
+    ∧ checkPidRange c .other = .typeError := by
+  have e : (2 : Int) ^ (32 - 1) = 2147483648 := by decide
+  simp only [checkPidRange, parseCInt, hg.bits, hg.neg, e, PidOk, Bool.true_and]
+  refine ⟨?_, ?_, ?_, trivial⟩
+  · by_cases h1 : v ≥ 2147483648 ∨ v < -2147483648
+    · simp only [h1, if_true]; constructor
+      · intro h; cases h
+      · intro h; omega
+    · simp only [h1, if_false]
+      by_cases h2 : v < 0
+      · simp only [decide_eq_true_eq, h2, if_true]; constructor
+        · intro h; cases h
+        · intro h; omega
+      · simp only [decide_eq_true_eq, h2, if_false, true_iff]; omega
+  · intro h
+    have h1 : ¬ (v ≥ 2147483648 ∨ v < -2147483648) := by omega
+    simp [h1, h.2]
+  · intro h
+    have h1 : v ≥ 2147483648 ∨ v < -2147483648 := by omega
+    simp [h1]
+
+theorem C17_pid_range_current (v : Int) : checkPidRange rcfg (.int v) = .none ↔ PidOk v :=
+  (C17_pid_range rcfg rcfg_good v).1
+
+/-! ## ioprio packing in C `int` -/
+
+/-- **C17_ioprio_no_overflow** — for `0 ≤ class < 2¹⁸` and `0 ≤ data ≤ INT_MAX` the shift is
+    defined and `(class << 13) | data` is representable in `int`. -/
+theorem C17_ioprio_no_overflow (cls data : Int) (h0 : 0 ≤ cls) (h1 : cls < 262144) (hd0 : 0 ≤ data)
+    (hd1 : data ≤ 2147483647) :
+    shlInt cls 13 = some (cls * 8192) ∧ Representable (orNat (cls * 8192) data) := by
+  have e : (2 : Int) ^ 13 = 8192 := by decide
+  constructor
+  · unfold shlInt INT_MAX
+    rw [e]
+    have : ¬ cls < 0 := by omega
+    have h2 : ¬ cls * 8192 > 2147483647 := by omega
+    simp [this, h2]
+  · unfold Representable orNat
+    have hx : (cls * 8192).toNat < 2 ^ 31 := by
+      have : (2 : Nat) ^ 31 = 2147483648 := by decide
+      omega
+    have hy : data.toNat < 2 ^ 31 := by
+      have : (2 : Nat) ^ 31 = 2147483648 := by decide
+      omega
+    have := Nat.or_lt_two_pow hx hy
+    have e31 : (2 : Nat) ^ 31 = 2147483648 := by decide
+    rw [e31] at this
+    omega
+
+/-- translator obligation: the C entry point checks `ioclass` before shifting -/
+theorem icfg_safe : icfg.CSafe := by
+  refine ⟨by decide, ?_⟩
+  refine ⟨(Gen.C17.ioprioCGuard.getD (0, 0)).1, (Gen.C17.ioprioCGuard.getD (0, 0)).2, ?_, ?_, ?_⟩ <;> decide
+
+theorem ioprioSetC_defined (c : ICfg) (hs : c.CSafe) (cls data : Int) : ioprioSetC c cls data ≠ .ub := by
+  obtain ⟨hsh, lo, hi, hg, hlo, hhi⟩ := hs
+  unfold ioprioSetC
+  by_cases hr : inRange c.cGuard cls = true
+  · have hin : lo ≤ cls ∧ cls ≤ hi := by
+      simpa [inRange, hg] using hr
+    have hshl := (C17_ioprio_no_overflow cls 0 (by omega) (by omega) (by decide) (by decide)).1
+    rw [hsh, hshl]
+    by_cases hb : (!inRange c.cGuard cls || !inRange c.cDataGuard data) = true
+    · simp [hb]
+    · simp only [hb, if_false]
+      by_cases hd : data < 0 <;> simp [hd]
+  · have : inRange c.cGuard cls = false := by simpa using hr
+    simp [this]
+
+theorem parseCInt_error (bits : Nat) (a : Arg) (e : PyOut) (h : parseCInt bits a = .error e) : e ≠ .ub := by
+  cases a with
+  | other => simp [parseCInt] at h; subst h; simp
+  | int v =>
+    simp only [parseCInt] at h
+    split at h
+    · injection h with h; subst h; simp
+    · cases h
+
+/-- **C17_ioprio_entry_defined** — with the C-side range check, `cext.proc_ioprio_set` reaches no
+    undefined shift for ANY three Python arguments (ints of any size, or other types). -/
+theorem C17_ioprio_entry_defined (c : ICfg) (hs : c.CSafe) (pid cls data : Arg) :
+    ioprioSetExt c pid cls data ≠ .ub := by
+  cases hp : parseCInt 32 pid with
+  | error e => simp only [ioprioSetExt, hp]; exact parseCInt_error _ _ _ hp
+  | ok p =>
+    cases hc : parseCInt 32 cls with
+    | error e => simp only [ioprioSetExt, hp, hc]; exact parseCInt_error _ _ _ hc
+    | ok cv =>
+      cases hdd : parseCInt 32 data with
+      | error e => simp only [ioprioSetExt, hp, hc, hdd]; exact parseCInt_error _ _ _ hdd
+      | ok dv => simp only [ioprioSetExt, hp, hc, hdd]; exact ioprioSetC_defined c hs cv dv
+
+/-- **C17_ioprio_reach** — which `ioclass` values can reach the shift from
+    `Process.ionice(ioclass, value)`: with either guard (C-side or Python-side) none that makes
+    it undefined, for every int `ioclass` and every `value`. -/
+theorem C17_ioprio_reach (c : ICfg) (hs : c.CSafe) (cls : Int) (value : Option Int) :
+    ioniceSetPy c cls value ≠ .ub := by
+  unfold ioniceSetPy
+  simp only
+  split
+  · simp
+  · split
+    · simp
+    · split
+      · simp
+      · exact C17_ioprio_entry_defined c hs _ _ _
+
+theorem C17_ioprio_reach_current (cls : Int) (value : Option Int) : ioniceSetPy icfg cls value ≠ .ub :=
+  C17_ioprio_reach icfg icfg_safe cls value
+
+/-- **counterexample (lead L15)** — without a range check on `ioclass`, `ionice(2**18, 0)`
+    passes every Python-side test and reaches `262144 << 13`: signed overflow. -/
+theorem C17_ioprio_unguarded_counterexample :
+    ioniceSetPy { icfg with cGuard := none, cDataGuard := none, pyClassGuard := none } 262144 (some 0) = .ub := by
+  decide
+
+/-! ## net_if_flags: bit → name -/
+
+/-- **C17_iff_table** — the C table (macro → name), restricted to the macros the platform's
+    `<net/if.h>` defines and with their values, is netdevice(7)'s table. -/
+theorem C17_iff_table : iffLinux = Spec.linuxIff := by decide
+
+theorem iffMask_good : Gen.C17.iffMask = 65535 := by decide
+
+/-- **C17_iff_flag_names** — for every flags word the names returned are exactly the names of
+    its set bits among the 16 Linux interface flags, lowest bit first. -/
+theorem C17_iff_flag_names (flags : Nat) :
+    iffNames iffLinux Gen.C17.iffMask flags = Spec.flagNames (flags % 65536) := by
+  rw [C17_iff_table, iffMask_good]
+  unfold iffNames Spec.flagNames
+  congr 1
+  apply List.filter_congr
+  intro e he
+  have hm : flags &&& 65535 = flags % 65536 := Nat.and_two_pow_sub_one_eq_mod flags 16
+  rw [hm]
+  simp only [Spec.linuxIff, List.mem_cons, List.not_mem_nil, or_false] at he
+  rcases he with rfl | rfl | rfl | rfl | rfl | rfl | rfl | rfl | rfl | rfl | rfl | rfl | rfl | rfl | rfl | rfl
+  · exact and_two_pow_ne_zero _ 0
+  · exact and_two_pow_ne_zero _ 1
+  · exact and_two_pow_ne_zero _ 2
+  · exact and_two_pow_ne_zero _ 3
+  · exact and_two_pow_ne_zero _ 4
+  · exact and_two_pow_ne_zero _ 5
+  · exact and_two_pow_ne_zero _ 6
+  · exact and_two_pow_ne_zero _ 7
+  · exact and_two_pow_ne_zero _ 8
+  · exact and_two_pow_ne_zero _ 9
+  · exact and_two_pow_ne_zero _ 10
+  · exact and_two_pow_ne_zero _ 11
+  · exact and_two_pow_ne_zero _ 12
+  · exact and_two_pow_ne_zero _ 13
+  · exact and_two_pow_ne_zero _ 14
+  · exact and_two_pow_ne_zero _ 15
+
+/-- **C17_iff_documented** — every flag name the extension can return on Linux is listed in the
+    documentation of `net_if_stats()`, and `isup` is derived from the `running` flag. -/
+theorem C17_iff_documented :
+    (∀ e ∈ iffLinux, e.2 ∈ Gen.C17.iffDocNames) ∧ Gen.C17.isupFlag = "running" := by decide
 
 end Psutil.C17
